@@ -18,13 +18,14 @@ Every decode of the real code runs
 """
 import json
 import os
+import resource
 import signal
 import struct
 import sys
 
 STREAMS = ['unmarshal-valid-truncated-mutated', 'message-truncated-mutated', 'lying-lengths',
            'hostile-signatures', 'hostile-message-signature', 'huge-lengths', 'random-bytes']
-THEOREMS = ['unmarshal_fuel_adequate', 'unmarshal_steps_linear', 'parseMessage_total',
+THEOREMS = ['tables_good', 'unmarshal_fuel_adequate', 'unmarshal_steps_linear', 'parseMessage_total',
             'result_size_bounded', 'prefix_array_loop_never_terminates']
 TRUSTED_BASE = [
     'Python semantics mirrored by hand in Wire/Cost.lean and validated only by the streams: struct.unpack_from '
@@ -53,6 +54,12 @@ RULE = ('valid (signature, value) pairs and valid messages are generated from th
 RECURSION_ROOM = 1000
 GREY = 80
 ALARM_S = 60.0
+MEMORY_ROOM = 2 << 30       # address space a single decode may add (bytes) before MemoryError
+
+
+def vm_size():
+    with open('/proc/self/statm') as f:
+        return int(f.read().split()[0]) * resource.getpagesize()
 
 
 # ------------------------------------------------------------------ instrumentation
@@ -142,6 +149,11 @@ def guarded(counter, budget, fn):
     old_handler = signal.signal(signal.SIGALRM, _on_alarm)
     signal.setitimer(signal.ITIMER_REAL, ALARM_S)
     sys.setrecursionlimit(stack_depth() + RECURSION_ROOM)
+    soft, hard = resource.getrlimit(resource.RLIMIT_AS)
+    cap = vm_size() + MEMORY_ROOM
+    if hard != resource.RLIM_INFINITY:
+        cap = min(cap, hard)
+    resource.setrlimit(resource.RLIMIT_AS, (cap, hard))
     try:
         try:
             v = fn()
@@ -155,6 +167,7 @@ def guarded(counter, budget, fn):
         except Exception as e:      # RecursionError is an Exception
             v, st = None, 'err:' + exc_name(e)
     finally:
+        resource.setrlimit(resource.RLIMIT_AS, (soft, hard))
         signal.setitimer(signal.ITIMER_REAL, 0)
         signal.signal(signal.SIGALRM, old_handler)
         sys.setrecursionlimit(old_limit)
@@ -337,6 +350,35 @@ def hostile_sigs(rng, thorough):
     return out
 
 
+SIG_ALPHABET = ['a', 'a', '(', ')', '{', '}', 'y', 'i', 's', 'v', 'g', 'x', 'z', '()', '{}', 'a()']
+
+
+def fault_sig(rng, sig):
+    """1-2 grammar faults applied to a (valid) signature: drop / insert / replace a character, cut the tail,
+    wrap in an array or struct, insert a zero-size container."""
+    s = sig
+    for _ in range(rng.choice([1, 1, 2])):
+        k = rng.randrange(7)
+        i = rng.randrange(len(s) + 1)
+        if k == 0 and s:
+            j = min(i, len(s) - 1)
+            s = s[:j] + s[j + 1:]
+        elif k == 1:
+            s = s[:i] + rng.choice(SIG_ALPHABET) + s[i:]
+        elif k == 2 and s:
+            j = min(i, len(s) - 1)
+            s = s[:j] + rng.choice(SIG_ALPHABET) + s[j + 1:]
+        elif k == 3:
+            s = s[:i]
+        elif k == 4:
+            s = 'a' + s
+        elif k == 5:
+            s = '(' + s + rng.choice([')', '', '))'])
+        else:
+            s = s[:i] + rng.choice(['()', '{}', '(())', 'a()', 'a{}']) + s[i:]
+    return s
+
+
 def hostile_data(rng, n):
     kind = rng.randrange(6)
     if kind == 0:
@@ -448,6 +490,14 @@ def quadratic_message(k, kp):
     return raw_message([f_path, f_member, f_sig_s(sig)], body)
 
 
+def quadratic_message_as(k, kp):
+    """the same, the signature field being an ARRAY OF STRINGS with one element (used as one complete type)."""
+    sig = ('a(y' + '()' * k + ')').encode()
+    body = struct.pack('<I', 8 * kp) + b'\0' * 4 + (b'\x01' + b'\0' * 7) * kp
+    arr = struct.pack('<I', len(sig)) + sig + b'\0'
+    return raw_message([f_path, f_member, f_raw(8, 'as', struct.pack('<I', len(arr)) + arr, 4)], body)
+
+
 def hostile_messages(rng, thorough):
     out = []
     body16 = struct.pack('<I', 8) + b'\0' * 12
@@ -488,6 +538,25 @@ def hostile_messages(rng, thorough):
     out.append(raw_message([f_path, f_member, f_sig_g('i')], struct.pack('<I', 5), le=False))
     for al in (0, 1, 7, 8, 9, 0x7fffffff, 0xffffffff):
         out.append(raw_message([f_path, f_member, f_sig_g('i')], struct.pack('<I', 5), arrlen=al))
+    return out
+
+
+def resign(raw, rng, k):
+    """the same little-endian message with its SIGNATURE header field replaced by a faulted signature (sent as 'g',
+    or as 's' to get past 255 characters), body unchanged."""
+    if raw[:1] != b'l' or len(raw) < 16:
+        return []
+    from txdbus import message as _m
+    try:
+        m = _m.parseMessage(raw, [])
+    except Exception:
+        return []
+    sig = m.signature or ''
+    out = []
+    for _ in range(k):
+        s = fault_sig(rng, sig)
+        fields = [f_path, f_member, f_sig_g(s) if len(s.encode()) <= 255 and rng.random() < 0.8 else f_sig_s(s)]
+        out.append(raw_message(fields, m.rawBody))
     return out
 
 
@@ -584,6 +653,16 @@ class Runner:
         elif st == 'MEMORY':
             ctx.violation(self.key(c, 'decode-memory'), '%s raised MemoryError' % what, inp=cj, observed=obs,
                           expected='result size bounded by the input')
+        elif st == 'err:RecursionError':
+            # every nesting level costs a signature character or at least 2 data bytes (a variant's length byte and
+            # one signature character) and at most 3 frames; anything deeper is recursion the input does not pay for
+            siglen = len(c['sig']) if c['op'] == 'u' else 255 + HEADER_LEN
+            levels = siglen + (len(c['data']) - (c['off'] if c['op'] == 'u' else 0)) // 2 + 2
+            if 3 * levels + GREY < RECURSION_ROOM:
+                ctx.violation(self.key(c, 'recursion-not-justified-by-input'),
+                              '%s hit the recursion limit on %d bytes of input (at most %d nesting levels)'
+                              % (what, len(c['data']), levels),
+                              inp=cj, observed=obs, expected='nesting bounded by signature length + data length / 2')
         elif st == 'ok':
             if obs['nodes'] > obs['steps'] + 1 or obs['chars'] > len(c['data']):
                 ctx.violation(self.key(c, 'result-size-unrelated-to-input'),
@@ -627,11 +706,28 @@ class Runner:
             ctx.disagree(stream, cj, mline, {k: v for k, v in obs.items()}, detail=','.join(bad))
 
     def key(self, c, base):
-        if c['op'] == 'p' and base == 'decode-work-not-linear':
+        if base not in ('decode-work-not-linear', 'decode-does-not-terminate'):
+            return base
+        sig = c['sig'] if c['op'] == 'u' else self.signature_field(c['data'])
+        if c['op'] == 'p' and (not isinstance(sig, str) or len(sig) > 255):
             return 'signature-field-unbounded'
-        if c['op'] == 'u' and c['sig'][:1] == 'a' and base in ('decode-work-not-linear', 'decode-does-not-terminate'):
-            return 'zero-size-array-element-loop' if self.zero_size_elem(c['sig']) else base
-        return base
+        text = (sig if isinstance(sig, str) else '') + c['data'].decode('latin-1')   # variant signatures are in the data
+        return 'zero-size-array-element-loop' if self.zero_size_elem(text) else base
+
+    def signature_field(self, raw):
+        """the value parseMessage would use as body signature (decoded by the real header decoder, uncounted)."""
+        saved, self.counter.budget = self.counter.budget, None
+        try:
+            hval = self.marshal.unmarshal(self.message._headerFormat, raw, 0, raw[:1] == b'l', [])[1]
+            sig = None
+            for code, v in hval[6]:
+                if self.message._hcode.get(code) == 'signature':
+                    sig = v
+            return sig
+        except Exception:
+            return None
+        finally:
+            self.counter.budget = saved
 
     @staticmethod
     def zero_size_elem(sig):
@@ -671,11 +767,12 @@ def run(ctx):
     # ---- the large witness of quadratic work through a string-typed signature field (one case, rejected at once
     #      by the repaired code; on a tree without the repair it runs into the step budget)
     R.add('hostile-message-signature', {'op': 'p', 'data': quadratic_message(4400, 1100)})
+    R.add('hostile-message-signature', {'op': 'p', 'data': quadratic_message_as(4400, 1100)})
     R.flush()
 
     # ---- valid (sig, value) pairs: all truncations, byte mutations, lying lengths
-    nvalid = ctx.scale(quick=40, thorough=400)
-    lim = None if thorough else 12
+    nvalid = ctx.scale(quick=150, thorough=1200)
+    lim = None if thorough else 16
     for _ in range(nvalid):
         sig, le, off, data = gen_valid(rng, marshal)
         ctx.stat('valid-sig-len=%d' % min(len(sig), 20))
@@ -688,13 +785,15 @@ def run(ctx):
             R.add('unmarshal-valid-truncated-mutated', dict(base, data=d))
         for d in length_lies(data, le, rng, None if thorough else 4):
             R.add('lying-lengths', dict(base, data=d))
+        for _ in range(8 if thorough else 3):       # the valid data under a faulted signature
+            R.add('hostile-signatures', dict(base, sig=fault_sig(rng, sig), data=data))
         if len(R.pending) > 3000:
             R.flush()
     R.flush()
 
     # ---- valid messages: all truncations, byte mutations, lying lengths
-    nmsg = ctx.scale(quick=25, thorough=300)
-    lim = None if thorough else 14
+    nmsg = ctx.scale(quick=80, thorough=300)
+    lim = None if thorough else 24
     for _ in range(nmsg):
         raw = gen_message(rng, marshal, message)
         R.add('message-truncated-mutated', {'op': 'p', 'data': raw})
@@ -704,6 +803,8 @@ def run(ctx):
             R.add('message-truncated-mutated', {'op': 'p', 'data': d})
         for d in length_lies(raw, raw[:1] == b'l', rng, None if thorough else 4):
             R.add('lying-lengths', {'op': 'p', 'data': d})
+        for d in resign(raw, rng, 6 if thorough else 2):
+            R.add('hostile-message-signature', {'op': 'p', 'data': d})
         if len(R.pending) > 3000:
             R.flush()
     R.flush()
@@ -761,7 +862,7 @@ def run(ctx):
     R.flush()
 
     # ---- unstructured bytes
-    nrand = ctx.scale(quick=300, thorough=5000)
+    nrand = ctx.scale(quick=1000, thorough=10000)
     for _ in range(nrand):
         n = rng.choice([0, 1, 2, 15, 16, 17, 24, 40, 80])
         data = bytes(rng.choice([0, 1, 8, 0x6c, 0x42, rng.randrange(256)]) for _ in range(n))
